@@ -100,6 +100,14 @@ def run(rep, tier, seed):
             for name, nl, qf, prop in [x for x in postulates(M, None) if x[0] in (("and", "cautious-monotony") if quick else ("and", "or", "cautious-monotony", "cut", "right-weakening"))]:
                 h = multi.MultiHarness("%s: %s/%s strict N=%d M=%d" % (name, system, pm, N, M), [dict(system=system, pm=pm, weakly=False, level=lvl)], N, M, nl, qf, prop)
                 drive.run_op(rep, h)
+    # Or / And with concrete atoms as antecedents at N=3 (three conditionals in one layer): the
+    # fully symbolic three-query product does not finish at N=3, this slice does
+    if not quick:
+        for system, pm, lvl in [("system-w", "rc2", "L2"), ("lex_inf", "rc2", "L2"), ("system-w", "z3", "L1")]:
+            qf = lambda L: [(L("X0"), tt.Symbol("a0")), (L("X0"), tt.Symbol("a1")), (L("X0"), tt.Or(tt.Symbol("a0"), tt.Symbol("a1")))]
+            h = multi.MultiHarness("or (atom antecedents): %s/%s strict N=3 M=3" % (system, pm), [dict(system=system, pm=pm, weakly=False, level=lvl)],
+                                   3, 3, 1, qf, implication("Or", 2), layers=[0, 0, 0])
+            drive.run_op(rep, h)
     # vacuity: rational monotony must FAIL for p-entailment (it is not rational)
     h = multi.MultiHarness("vacuity twin: rational monotony for p-entailment must be refuted N=2 M=2", [dict(system="p-entailment", pm="")], 2, 2, 3,
                            lambda L: [(L("X2"), L("X0")), (tt.Not(L("X1")), L("X0")), (L("X2"), tt.And(L("X0"), L("X1")))], rm_prop)
